@@ -75,6 +75,24 @@ fn std_validator(all: bool, rb: &[u8; 64], pos: u64, nb: u16) -> V {
     validator_in(0, all, None, rb, pos, nb + 1)
 }
 
+/// The handlers run from an arbitrary history: each status word seen earlier on the link (if any) is an arbitrary
+/// word of its type. A handler whose verdict depends on what was stored before (e.g. skipping the check of a
+/// repeated word) is then exposed.
+fn arbitrary_stored_words(v: &mut V) {
+    if kani::any() {
+        let p: [u8; 10] = kani::any();
+        v.status_words.replace_ihw(Ihw::from_buf(&p[..]).unwrap());
+    }
+    if kani::any() {
+        let p: [u8; 10] = kani::any();
+        v.status_words.replace_tdt(Tdt::from_buf(&p[..]).unwrap());
+    }
+    if kani::any() {
+        let p: [u8; 10] = kani::any();
+        v.status_words.replace_ddw(Ddw0::from_buf(&p[..]).unwrap());
+    }
+}
+
 // @harness id=full_handler_ihw props=C09,C02,C01,C07,C11,C04 kind=full tier=quick fns=CdpRunningValidator::preprocess_ihw,CdpRunningValidator::report_error,CdpRunningValidator::new,CdpRunningValidator::set_current_rdh stubs=alloc::fmt::format,core::fmt::write,flume::Sender::send
 #[kani::proof]
 #[kani::stub(alloc::fmt::format, stub_format)]
@@ -85,6 +103,7 @@ fn full_handler_ihw() {
     let rb: [u8; 64] = kani::any();
     let all: bool = kani::any();
     let mut v = std_validator(all, &rb, 64, 0);
+    arbitrary_stored_words(&mut v);
     let w: [u8; 10] = kani::any();
     v.preprocess_ihw(&w[..]);
     assert!(!(sent_errors() > 0 && spec_ihw_sane(&w)), "[C01][C11] sane IHW is not reported by the IHW handler");
@@ -134,6 +153,7 @@ fn full_handler_tdt() {
     let rb: [u8; 64] = kani::any();
     let all: bool = kani::any();
     let mut v = std_validator(all, &rb, 64, 2);
+    arbitrary_stored_words(&mut v);
     let w: [u8; 10] = kani::any();
     v.preprocess_tdt(&w[..]);
     assert!(!(sent_errors() > 0 && spec_tdt_sane(&w)), "[C01][C11] sane TDT is not reported by the TDT handler");
@@ -153,6 +173,7 @@ fn full_handler_ddw0() {
     let rb: [u8; 64] = kani::any();
     let all: bool = kani::any();
     let mut v = std_validator(all, &rb, 64, 3);
+    arbitrary_stored_words(&mut v);
     let w: [u8; 10] = kani::any();
     v.preprocess_ddw0(&w[..]);
     let rdh_viol = all && (s_stop_bit(&rb) != 1 || s_pages_counter(&rb) == 0);
